@@ -13,23 +13,29 @@
 (***************************************************************************)
 EXTENDS Integers, Sequences, FiniteSets, TLC
 
-CONSTANTS MaxItems
+CONSTANTS MaxItems, WithPath
 BaseCols == [t |-> <<"a", "b">>, u |-> <<"a", "c">>, v |-> <<"b", "c">>]
+\* a fourth base table lives under the two-part path s.w (columns a = 4, b = 5).  `s.w` always denotes it; the bare name
+\* `w` denotes it too (unique suffix of a path) unless the query defines a CTE named w
+\* (`WITH w AS (SELECT a AS a, c AS b FROM u)`), which then is what `w` - and only `w` - denotes.
+Pathed == {"s.w", "w"}
 \* the CTE `WITH t AS (SELECT a AS a, c AS b FROM u)`: t now has columns a and b, b holding u.c
-ColsOf(tbl, cte) == IF cte /\ tbl = "t" THEN <<"a", "b">> ELSE BaseCols[tbl]
+ColsOf(tbl, cte) == IF tbl \in Pathed \/ (cte /\ tbl = "t") THEN <<"a", "b">> ELSE BaseCols[tbl]
 \* marker value of a column: a = 1, b = 2, c = 3 in the base tables
-ValueOf(tbl, n, cte) == IF cte /\ tbl = "t" /\ n = "b" THEN 3 ELSE CASE n = "a" -> 1 [] n = "b" -> 2 [] n = "c" -> 3
 
 NRank(n) == CASE n = "a" -> 1 [] n = "b" -> 2 [] n = "c" -> 3
 FirstOf(S) == CHOOSE n \in S : \A m \in S : NRank(n) <= NRank(m)
 Qual(it) == IF it.as = "" THEN it.t ELSE it.as
 SeqSet(s) == { s[i] : i \in 1..Len(s) }
 
-VARIABLES cte, items, joins, merged, ref, phase
+VARIABLES cte, ctew, items, joins, merged, ref, phase
 \* items: sequence of [t, as]; joins[i]: how item i+1 is joined; merged: names merged so far
-vars == <<cte, items, joins, merged, ref, phase>>
+vars == <<cte, ctew, items, joins, merged, ref, phase>>
+ValueOf(tbl, n, c) == IF tbl = "s.w" \/ (tbl = "w" /\ ~ctew) THEN (IF n = "a" THEN 4 ELSE 5)
+                      ELSE IF tbl = "w" THEN (IF n = "a" THEN 1 ELSE 3)
+                      ELSE IF c /\ tbl = "t" /\ n = "b" THEN 3 ELSE CASE n = "a" -> 1 [] n = "b" -> 2 [] n = "c" -> 3
 
-Init == cte \in BOOLEAN /\ items = << >> /\ joins = << >> /\ merged = {} /\ ref = [q |-> "", n |-> ""] /\ phase = "from"
+Init == cte \in BOOLEAN /\ ctew \in (IF WithPath THEN BOOLEAN ELSE {FALSE}) /\ items = << >> /\ joins = << >> /\ merged = {} /\ ref = [q |-> "", n |-> ""] /\ phase = "from"
 
 \* names visible without qualifier, with multiplicity: merged names once, other columns once per item
 Visible(n) == (IF n \in merged THEN 1 ELSE 0)
@@ -37,8 +43,9 @@ Visible(n) == (IF n \in merged THEN 1 ELSE 0)
 LeftNames == { n \in {"a", "b", "c"} : Visible(n) > 0 }
 
 AddItem == /\ phase = "from" /\ Len(items) < MaxItems
-           /\ \E tbl \in {"t", "u", "v"} : \E al \in {"", "x" \o ToString(Len(items) + 1)} :
+           /\ \E tbl \in {"t", "u", "v"} \cup (IF WithPath THEN Pathed ELSE {}) : \E al \in {"", "x" \o ToString(Len(items) + 1)} :
                  LET it == [t |-> tbl, as |-> al] IN
+                 /\ (tbl \in Pathed => al # "")      \* (these items are always aliased: the qualifier of a bare `s.w` is not modelled)
                  /\ Qual(it) \notin { Qual(items[i]) : i \in 1..Len(items) }
                  /\ IF items = << >> THEN items' = <<it>> /\ joins' = joins /\ merged' = merged
                     ELSE LET common == { n \in SeqSet(ColsOf(tbl, cte)) : n \in LeftNames }
@@ -51,13 +58,13 @@ AddItem == /\ phase = "from" /\ Len(items) < MaxItems
                                                                            ELSE IF j = "using" THEN {FirstOf(common)} ELSE {}])
                                /\ merged' = merged \cup (IF j = "natural" THEN common
                                                          ELSE IF j = "using" THEN {FirstOf(common)} ELSE {})
-           /\ UNCHANGED <<cte, ref, phase>>
+           /\ UNCHANGED <<cte, ctew, ref, phase>>
 
 PickRef == /\ phase = "from" /\ items # << >>
            /\ \E q \in {""} \cup { Qual(items[i]) : i \in 1..Len(items) } : \E n \in {"a", "b", "c"} :
                  ref' = [q |-> q, n |-> n]
            /\ phase' = "done"
-           /\ UNCHANGED <<cte, items, joins, merged>>
+           /\ UNCHANGED <<cte, ctew, items, joins, merged>>
 
 Next == AddItem \/ PickRef
 Spec == Init /\ [][Next]_vars
